@@ -12,7 +12,7 @@ from ..drivers import rzxdrv
 
 PID = 'C20'
 NEED = ('end:accept', 'end:accept-halt', 'end:accept-pv', 'end:block', 'end:none', 'repeat-markers', 'multi-block', 'empty-frames',
-        'paged', 'frames-with-readings')
+        'paged', 'frames-with-readings', 'snap:same', 'snap:needed', 'snap:stale')
 
 
 def judge_traces(rep, traces, wd):
